@@ -624,7 +624,7 @@ namespace Givaro {
     template<typename Any>
     inline std::istream& GFqDom<Any>::read (std::istream& i, Rep& a) const
     {
-        TT t;
+        TT t = 0;
         i >> t;
         init(a,t);
         return i;
